@@ -40,6 +40,9 @@ func genC17(t *rapid.T) C17Case {
 	} else {
 		lim.maxLeaves, lim.maxBlocks, lim.maxAdd = 400, 20, 60
 	}
+	if bigCase(t) {
+		lim.maxLeaves, lim.maxBlocks, lim.maxAdd = 700, 10, 300
+	}
 	full, part := genMapCfg(t, "full"), genMapCfg(t, "part")
 	full.Full, part.Full = true, false
 	// TotalRows equal to the rows the forest needs is where a map forest translates nothing
